@@ -263,6 +263,27 @@ def attrs_tables(check, prog):
     check.require(len(arrays) == 1 and bool(calls_in(arrays[0]['value'], 'list')),
                   'U2-coordinate-table', 'pack_attrs array values',
                   'labelled attribute values are stored as a list', loc)
+    # the table is written as YAML text and the reader takes each array's dims
+    # (and the shape its value buffer is reshaped to) from the *order* of the
+    # table's keys: the text must keep the order in which the dims were entered
+    # (val.dims), which PyYAML's default sort_keys=True does not -- a labelled
+    # attribute with dims ('vector', 'illumination') comes back transposed over
+    # an untransposed buffer
+    tab = [e for e in stores if level(e['base']) == 0 and
+           e['key'] in (('const', '_attr_coords'),
+                        intern(('global', 'holopy.core.io.io.attr_coords'))) and
+           calls_in(e['value'], 'yaml.dump')]
+    okt = len(tab) == 1
+    if okt:
+        d = calls_in(tab[0]['value'], 'yaml.dump')[0]
+        okt = kw(d, 'sort_keys') == FALSE
+    check.require(okt, 'U2-coordinate-table', 'pack_attrs table order',
+                  'the coordinate table is dumped with its keys in insertion order '
+                  '(sort_keys=False): the reader rebuilds dims and shape from that '
+                  'order', loc,
+                  fail_detail='the table is dumped with sorted keys: an attribute whose '
+                  'dims are not in alphabetical order (e.g. a polarisation given as '
+                  "(vector, illumination)) is reshaped with the wrong axes on load")
     side_written = set()
     for e in stores:
         k = e['key']
@@ -1222,6 +1243,63 @@ def tiff_scaling(check, prog):
         check.require(len(st) == 1, 'U6-tiff-scaling', 'display_image',
                       'records the scaling it applied under _image_scaling',
                       prog.loc(q2, fd2))
+        # "all dtypes": the stretch (im - s0) / (s1 - s0) subtracts in the image's
+        # own type unless the image is converted first; for a signed integer
+        # image whose range exceeds the type's positive range (int8 spanning
+        # more than 127) im - s0 wraps around before the division
+        FLOATS = ('float', 'np.float64', 'numpy.float64', "'float'", "'float64'",
+                  'np.float32', "'f8'", 'np.double')
+
+        def float_conv(e, before):
+            if isinstance(e, ast.Call):
+                f = ast.unparse(e.func)
+                args = [ast.unparse(a) for a in e.args] + \
+                    [ast.unparse(k.value) for k in e.keywords]
+                if f.endswith('.astype') and any(a in FLOATS for a in args):
+                    return True
+                if f.split('.')[-1] in ('asarray', 'array', 'asfarray', 'float64') and \
+                        (any(a in FLOATS for a in args[1:]) or
+                         f.split('.')[-1] in ('asfarray', 'float64')):
+                    return True
+            if isinstance(e, ast.BinOp) and isinstance(e.op, (ast.Mult, ast.Div)):
+                for side in (e.left, e.right):
+                    if isinstance(side, ast.Constant) and isinstance(side.value, float):
+                        return True
+                if isinstance(e.op, ast.Div):
+                    return True
+            if isinstance(e, ast.Name):
+                for st_ in reversed(before):
+                    if isinstance(st_, ast.Assign) and any(
+                            isinstance(t, ast.Name) and t.id == e.id
+                            for t in st_.targets):
+                        return float_conv(st_.value, before[:before.index(st_)])
+            return False
+        nstretch = 0
+        for blk in ast.walk(fd2):
+            body = getattr(blk, 'body', None)
+            if not isinstance(body, list):
+                continue
+            for i_, st_ in enumerate(body):
+                if not isinstance(st_, ast.Assign):
+                    continue
+                v_ = st_.value
+                if isinstance(v_, ast.BinOp) and isinstance(v_.op, ast.Div) and \
+                        isinstance(v_.left, ast.BinOp) and \
+                        isinstance(v_.left.op, ast.Sub) and \
+                        'scaling[0]' in ast.unparse(v_.left.right) and \
+                        'scaling[1]' in ast.unparse(v_.right):
+                    nstretch += 1
+                    check.require(float_conv(v_.left.left, body[:i_]),
+                                  'U6-tiff-scaling', 'display_image stretch in float',
+                                  'the image is converted to floating point before '
+                                  'the lower bound is subtracted', '%s:%d' % (
+                                      prog.module('holopy.core.io.vis').relpath,
+                                      st_.lineno),
+                                  fail_detail='%s subtracts in the image\'s own '
+                                  'dtype: an int8 image spanning [-100, 99] wraps to '
+                                  'negative values and is exported scrambled' %
+                                  ast.unparse(v_)[:80])
+        check.floor('stretch statements in display_image', nstretch, 1)
 
 
 def depth_options(check, prog):
